@@ -447,14 +447,25 @@ func runPair(sc *PairScenario, rounds int) (labels []string, nontrivial bool, do
 		go p.worker(g, &wg)
 	}
 	stuck, deadlock := watched("ctreeprop.(*pairRun).worker", *c10Stall, *c10Confirm, wg.Wait)
-	p.stop.Store(true)
 	lab := pairStaticLabels(sc)
 	if stuck != "" {
 		if deadlock {
-			return nil, false, p.rounds, &burstFail{"deadlock", stuck}
+			return nil, false, 0, &burstFail{"deadlock", stuck}
 		}
-		lab["case-inconclusive-stall"] = true
+		// not a deadlock: the machine is too busy for that many rounds within the stall guard (or a racer
+		// is stuck for another reason). The rounds made so far are all judged; stop after the current one.
+		p.stop.Store(true)
+		joined := make(chan struct{})
+		go func() { wg.Wait(); close(joined) }()
+		select {
+		case <-joined:
+			lab["case-cut-short-by-the-stall-guard"] = true
+		case <-time.After(*c10Confirm):
+			// the racers cannot be reclaimed and their records must not be read: nothing is concluded from this case
+			return []string{"case-inconclusive-stall"}, false, 0, nil
+		}
 	}
+	p.stop.Store(true)
 	if p.fail != nil {
 		sc.Witness = p.witness
 		return nil, false, p.rounds, p.fail
@@ -623,7 +634,12 @@ func TestC10Pair(t *testing.T) {
 		}
 		total += n
 		cases++
-		rec.Case(sc, nontrivial, append(labels, fmt.Sprintf("rounds-per-case-%d", n))...)
+		// total rounds = sum over these labels
+		rl := fmt.Sprintf("rounds-per-case-%d", n)
+		if n != rounds {
+			rl = "rounds-per-case:fewer-than-requested"
+		}
+		rec.Case(sc, nontrivial, append(labels, rl)...)
 	})
 	el := time.Since(start)
 	rec.Note("pair: %d rounds in %v (%.0f rounds/s), every round judged (canonical form looked up; first occurrence and one round in %d by the full judges)", total, el.Round(time.Millisecond), float64(total)/el.Seconds(), *c10PairFull)
